@@ -3,7 +3,7 @@
     filter + stripComponents + archive.Index with its lazily created builder). Proofs: Proofs/DirWalk.v.
     Trusted boundary: tar/zip/gzip decoding, the glob matcher (the verdict function [matcher] is universally
     quantified), the OS, index.Builder's round trip ([builder_view] models Builder.Add's skip rewriting). *)
-From ZV Require Import Lib.Base Model.DirWalk Proofs.DirWalk.
+From ZV Require Import Lib.Base Model.IgnoreFile Model.DirWalk Proofs.DirWalk Proofs.IgnoreFile.
 
 (** Directory indexing, every tree, every ignore verdict function, every ignored-name set, every SizeMax:
     the documents are exactly the images of the pairs (path, bytes) such that the path leads through real
@@ -42,6 +42,31 @@ Proof.
   destruct q; destruct r; try contradiction; discriminate.
 Qed.
 Print Assumptions C15_symlink_content_is_target.
+
+(** The ignore file's syntax (ParseIgnoreFile; glob engine = any verdict function): a path is ignored iff some line, with
+    white space trimmed, not blank, not a '#' comment, a leading '/' dropped and "**" appended when it has no glob
+    character, yields a pattern that the engine matches against the path. *)
+Theorem C15_ignore_match_spec : forall glob content path,
+  ignore_match glob content path = true <->
+  exists line p, In line (split_lines content) /\ normalise_line line = Some p /\ glob p path = true.
+Proof. exact ignore_match_spec. Qed.
+Print Assumptions C15_ignore_match_spec.
+
+Theorem C15_ignore_blank_and_comment_lines_inert : forall line,
+  trim_space line = [] \/ (exists r, trim_space line = 35%N :: r) -> normalise_line line = None.
+Proof. exact normalise_blank_or_comment. Qed.
+Print Assumptions C15_ignore_blank_and_comment_lines_inert.
+
+Theorem C15_ignore_lines : forall l r,
+  ~ In 10%N l -> split_lines (l ++ 10%N :: r) = drop_cr l :: split_lines r.
+Proof. exact split_lines_cons. Qed.
+Print Assumptions C15_ignore_lines.
+
+(* "# c\r\n\n  /build \n*.tmp" -> patterns "build**" and "*.tmp" *)
+Example C15_ignore_nonvacuous :
+  ignore_patterns [35;32;99;13;10;10;32;32;47;98;117;105;108;100;32;10;42;46;116;109;112]%N
+  = [[98;117;105;108;100;42;42]%N; [42;46;116;109;112]%N].
+Proof. vm_compute. reflexivity. Qed.
 
 (** stripComponents removes exactly [count] leading '/'-terminated components ... *)
 Theorem C15_strip_components_complete : forall comps r,
